@@ -83,6 +83,43 @@ def stub_sigs(stub_text, subname):
     raise ValueError("stub subroutine not found")
 
 
+def stub_sanity(stub_text, subname):
+    """Cheap well-formedness clauses on the real stub: no dummy name occurs twice, every dummy is
+    declared, every name used in an array bound is a dummy or a declared entity.  Returns a list of
+    problem descriptions (empty = fine)."""
+    from fparser.two import Fortran2003 as F
+    from fparser.two.utils import walk
+    tree = _parse(stub_text)
+    problems = []
+    for sub in walk(tree, F.Subroutine_Subprogram):
+        stmt = sub.content[0]
+        if str(stmt.items[1]).lower() != subname.lower():
+            continue
+        dummies = [str(x).lower() for x in (stmt.items[2].items if stmt.items[2] is not None else [])]
+        dup = sorted({d for d in dummies if dummies.count(d) > 1})
+        if dup:
+            problems.append("duplicate dummy argument(s): " + ", ".join(dup))
+        decl = _decls(sub)
+        missing = [d for d in dummies if d not in decl]
+        if missing:
+            problems.append("undeclared dummy argument(s): " + ", ".join(missing))
+        used = set()
+        for d in walk(sub, F.Type_Declaration_Stmt):
+            _, attrs, ents = d.items
+            specs = [a.items[1] for a in (attrs.items if attrs is not None else [])
+                     if isinstance(a, F.Dimension_Attr_Spec)]
+            specs += [e.items[1] for e in ents.items if e.items[1] is not None]
+            for sp in specs:
+                if isinstance(sp, F.Name):
+                    used.add(str(sp).lower())
+                used |= {str(n).lower() for n in walk(sp, F.Name)}
+        unknown = sorted(n for n in used if n not in decl)
+        if unknown:
+            problems.append("array bound uses name(s) that are neither dummies nor declared: " + ", ".join(unknown))
+        return problems
+    return ["stub subroutine not found"]
+
+
 # components of infrastructure derived types that the PSy layer passes directly (trusted facts about
 # the LFRic infrastructure, checked against the bundled infrastructure stubs in the thorough tier)
 COMPONENT_TYPES = {"ncell_3d": ("integer", "i_def", 0)}
@@ -139,7 +176,7 @@ def run_real(md, keep=None):
     _setup()
     d = keep or tempfile.mkdtemp(prefix="c21-", dir=os.environ.get("TMPDIR"))
     res = {"stub": None, "stub_err": None, "call": None, "call_err": None,
-           "stub_text": None, "psy_text": None}
+           "stub_text": None, "psy_text": None, "stub_problems": []}
     try:
         kfile = os.path.join(d, md["name"] + "_mod.f90")
         with open(kfile, "w") as f:
@@ -152,6 +189,7 @@ def run_real(md, keep=None):
             text = str(generate(kfile, api=API))
             res["stub_text"] = text
             res["stub"] = stub_sigs(text, sub)
+            res["stub_problems"] = stub_sanity(text, sub)
         except Exception as e:  # noqa: BLE001  (refusals of the real code are data here)
             res["stub_err"] = type(e).__name__ + ": " + str(e)[:200]
         try:
